@@ -6,6 +6,14 @@ VERIF = os.path.dirname(os.path.dirname(os.path.abspath(__file__)))
 rnd, outroot, wtprefix = sys.argv[1], sys.argv[2], sys.argv[3]
 props = [json.loads(l) for l in open(os.path.join(VERIF, "properties.jsonl"))]
 EMPH = {
+ "10": ("This round: a PERFORMANCE OPTIMISATION or a REFACTORING for speed / fewer allocations — a fast path for the common case, caching or "
+       "memoisation of something computed per message (parsed templates, record lengths, keys, addresses, formatted strings), reuse or pooling of "
+       "buffers / slices / maps / decoder objects, batching or coalescing of writes, avoiding a copy, a precomputed table, narrowing or splitting "
+       "a lock, lazy initialisation, replacing a generic routine by a specialised one — that is correct for the common case and wrong for an "
+       "uncommon but perfectly valid case (state left over from the previous use of a reused object, a cache key that leaves out something that "
+       "matters, a fast path whose precondition is not quite the one checked, a batch that is flushed at the wrong moment, an aliasing slice). "
+       "The optimisation should be real (a benchmark would show it) and the common case must stay correct. Different mechanism, code site and "
+       "trigger from everything listed; not detectable by a data-race detector alone; ordinary traffic with default settings must look healthy."),
  "9": ("This round: implement a small, plausible FEATURE or EXTENSION — support for something the code skips or does not do today (another sFlow "
        "record or sample type, IPv6 where only IPv4 is handled, a new setting or flag, another element data type, template withdrawal or expiry, "
        "a limit that protects the collector, a statistics counter, friendlier handling of some error, a retry or a timeout) — whose implementation "
